@@ -370,7 +370,8 @@ FORMS_76 = {'var': ('T', 'x'), 'tuple': ('(T, T)', '(x, x)'), 'array': ('[T; 2]'
             'self-call': ('T', 'g(x)'), 'match-default': ('T', 'match x { _ => x }'), 'let-tuple': ('(T, T)', '{ let w = (x, x); w }')}
 def replay_body_types(form):
     rt, ex_ = FORMS_76[form]
-    src = 'fn g[T](x: T) -> %s { %s }\nfn main() -> unit { let a = g(1); let b = g("s"); () }\n' % (rt, ex_)
+    # the expression is bound to a variable first: a declaration `var r_ <type>` shows the type the backend received for it (a tail expression may be assigned without one)
+    src = 'fn g[T](x: T) -> %s { let r_ = %s; r_ }\nfn main() -> unit { let a = g(1); let b = g("s"); () }\n' % (rt, ex_)
     d = tempfile.mkdtemp(prefix='vf-c07b-')
     try:
         open(os.path.join(d, 'main.gom'), 'w').write(src)
